@@ -203,11 +203,13 @@ func main() {
 				perms = uint8(vlib.Pick(r, 0, 1, 2, 4, 6, 30, 62, 126, 254, 255))
 			}
 			key.SetPermissions(perms)
-			switch r.Intn(4) {
+			switch r.Intn(6) {
 			case 0:
 				key.SetExpires(time.Unix(now-int64(1000+r.Intn(100000)), 0))
 			case 1:
 				key.SetExpires(time.Unix(now+int64(1000+r.Intn(100000)), 0))
+			case 2: // the edges of the 32-bit expiry field: its first seconds (2010) and its last decades (2106-2146)
+				key.SetExpires(time.Unix(int64(vlib.Pick(r, 1, 1262304000, 1262304001, 1262304002, 4294967295, 4294967296, 4294967297, 4300000000, 5000000000, 5557271294, 5557271295, 5557271296, 1<<33, 1<<40)), 0))
 			}
 			class := "authorize/ok-identity"
 			switch r.Intn(10) {
@@ -236,5 +238,5 @@ func main() {
 		}
 		svc.Close()
 	}
-	sh.Finish("key targets over levels {a,b,c,+} depth 0-3 with optional final '#/' (all) and 4 (sampled), exact and '#/', against requests of the same grammar (quick: stratified sample incl. requests derived from the target; thorough: every pair); malformed targets; Authorize through a real broker service per licence version with random permission masks x 6 operations x expiry past/none/future x identity (good / foreign contract / wrong signature / wrong master); non-trivial: all")
+	sh.Finish("key targets over levels {a,b,c,+} depth 0-3 with optional final '#/' (all) and 4 (sampled), exact and '#/', against requests of the same grammar (quick: stratified sample incl. requests derived from the target; thorough: every pair); malformed targets; Authorize through a real broker service per licence version with random permission masks x 6 operations x expiry past/none/future/edges of the 32-bit field (2010, 2106-2146, clamped) x identity (good / foreign contract / wrong signature / wrong master); non-trivial: all")
 }
